@@ -101,6 +101,11 @@ def emit(p, fname, naming=0):
         s_, i = N["s"], N["i"]
         return sig + "\t_ = %s\n\t%s := 0\n\tfor %s := %s(0); %s < %s(clamp(%s)+4); %s++ {\n\t\t%s += int(%s * 60)\n\t}\n\treturn %s\n}\n" % (
             b, s_, i, p["ty"], i, p["ty"], a, i, s_, i, s_)
+    if t == "sliceidx":
+        s_, i, x = N["s"], N["i"], N["x"]
+        idx = {"i": i, "rev": "len(%s)-1-%s" % (x, i), "zero": "0"}[p["idx"]]
+        return sig + "\t%s := tab(%s)\n\t%s := 0\n\tfor %s := 0; %s < len(%s); %s++ {\n\t\t%s = %s + %s[%s]\n\t}\n\treturn %s + %s\n}\n" % (
+            x, a, s_, i, i, x, i, s_, binw("*", s_, "2", pres, False), x, idx, s_, b)
     if t == "closure2":
         g, x, u, v = N["g"], N["x"], N["u"], N["v"]
         return sig + "\t%s, %s := %s+1, %s-1\n\t%s := func(%s int) int {\n\t\treturn %s\n\t}\n\treturn %s\n}\n" % (
